@@ -3954,12 +3954,16 @@ def r05_17(prog, rep, rid='R05.17'):
                 continue
             rep.saw(f)
             succ = [e.dst for e in g.succ[n.id] if e.label != 'exc']
+            # loggers and profilers are trusted not to raise
+            quiet = [(m.id, 'exc') for m in g.nodes
+                     if m.kind == 'stmt' and _is_log_stmt(m.ast)]
             again = []
             for name in names:
                 stop = [m.id for m in g.nodes if _binds(m, name)]
                 if n.id in stop:
                     continue
-                r = g.reachable(succ, skip_nodes=stop) if succ else set()
+                r = g.reachable(succ, skip_nodes=stop, skip_edges=quiet) \
+                    if succ else set()
                 if n.id in r:
                     again.append(name)
             loop = g.nodes[n.loops[-1]]
